@@ -13,7 +13,35 @@
 //   C09.g  EllipsoidArea; LONG_UNROLL: lon2 - lon1 = unreduced longitude change, lon2 in [-180, 180] otherwise
 //
 // MUTATION TABLE (scratch copy /tmp/mutC15, VERIF_REPO=..., quick tier)
-//@MUTATION-TABLE@
+//   (run with the finding ids of this file enabled, so that the listed findings do not mask the mutation)
+//   id    mutation (file: change)                                                                      caught by
+//   R1    Rhumb.cpp area table (order 6) row 1, n^2: 22/45 -> 23/45                                     C09.a (b d e f)
+//   R1b   area table row 4, n^4: 5/252 -> 5/262                                                         C09.a b d e f
+//   R1c   area table row 5, n^6: -101/17325 -> +101/17325                                               C09.a b d e f
+//   R1d   area table row 1, n^6: 138734126/638512875 -> negative                                        C09.a
+//   R1e   area table last entry, n^6: 11537/4054050 -> negative                                         NOT CAUGHT: the whole term is
+//           0.0028 n^6 = 4e-17 at |f| = 0.01 (n = 0.005), i.e. below one ulp of S12 on every ellipsoid the series admits
+//   R2    AreaCoeffs DST fit termination eps -> 2e4 eps                                                 C09.a b d e f
+//   R2b   AreaCoeffs P_l = (c_l + c_l+1)/(-4(l+1)) -> /(-4(l+2))                                        C09.a b d e f
+//   R3    Dasinh (Dlam): x hy + y hx -> x hx + y hy                                                     C09.a b c c2 d e f g
+//   R3b   Datan: 1 + xy -> 1 - xy                                                                       C09.a b c c2 d e f g
+//   R4    Dh (Dp0Dpsi): last term sx/scy -> sx/scx                                                      C09.a b c d e
+//   R5    DClenshaw Xb sign                                                                             C09.a
+//   R5b   DClenshaw: D2 factor dropped                                                                  C09.a
+//   R6    pole wrap AngNormalize(180 - mu2) -> AngNormalize(mu2 - 180)                                  C09.e
+//   R6b   pole test |mu2| <= 90 -> <= 180                                                               C09.e
+//   R7    EllipsoidArea 2*360*_c2 -> 2*180*_c2                                                          C09.g
+//   R7b   _c2 from AuthalicRadiusSquared(!exact)                                                        C09.a
+//   R7c   _rm * (1 + 1e-14)                                                                             C09.a
+//   R8    GenInverse AngDiff(lon1, lon2) -> AngNormalize(lon2 - lon1)                                   C09.d
+//   R9    DRectifying x == y branch: (sec phi/sec mu)^2 inverted                                        C09.a
+//   R10   MeanSinXi: + DpbetaDbeta*DbetaDpsi -> -                                                       C09.a
+//   R11   LONG_UNROLL: _lon1 + lon2x -> AngNormalize(_lon1) + lon2x                                     C09.g
+//   R12   GenInverse series Dlam(chi1, chi2) -> Dlam(chi2, chi2)                                        C09.a
+//   R13   GenPosition mu12 * (1 + 1e-13)                                                                C09.b
+//   R14   GenPosition lon2x * (1 + 1e-13)                                                               C09.c
+//   R15   series area order Lmax_ -> Lmax_ - 1                                                          C09.f
+//   24 of 25 caught within the quick tier (9 .. 800 s; the slow ones are full-property runs on a loaded machine).
 #include "fw/harness.hpp"
 #include "gen/geo.hpp"
 #include "ref/aux_ref.hpp"
@@ -60,7 +88,8 @@ EllRec gen_ell(int force_exact = -1) {
   EllRec e; e.exact = force_exact < 0 ? vf::g::coin() : force_exact != 0;
   if (e.exact && vf::g::coin(1, 2)) {
     gg::Ell g = gg::ellipsoid(gg::EXACT_RANGE); e.a = g.a; e.f = g.f;
-    if (1 - e.f < 0.01) e.f = 0.99; if (1 - e.f > 100) e.f = -99;
+    if (1 - e.f < 0.01) e.f = 0.99;
+    if (1 - e.f > 100) e.f = -99;
     return e;
   }
   switch (vf::g::wpick({25, 30, 25, 20})) {
@@ -189,7 +218,7 @@ bool get_pair(const J& r, double& lat1, double& lon1, double& lat2, double& lon2
 //  * extreme eccentricity: factor ecc_factor (see C15).
 struct InvTol { L s12, azi, S12; };
 InvTol inv_tol(const ref::rhumb::Inv& R, const EllRec& e, double a, double lat1 = 90, double lat2 = 90) {
-  InvTol t; double g = ecc_factor(e) + de_factor(e, lat1, lat2) / 16;
+  InvTol t; double g = ecc_factor(e) + de_factor(e, lat1, lat2) / 4;
   // latitudes whose tangents differ by a subnormal number: the divided differences work with that difference
   double dt = std::fabs(lat2 - lat1) * (M_PI / 180);
   if (dt > 0 && dt < 1e-290 && std::max(std::fabs(lat1), std::fabs(lat2)) < 1) g += DBL_TRUE_MIN / dt / EPS;
@@ -288,9 +317,10 @@ bool get_dir(const J& r, double& lat1, double& lon1, double& azi, double& s12, b
 //   r12 sin(azi) / D(mu)/D(psi)), and to S12 through cond_S and the longitude.
 struct DirTol { L mu2, lat2, lon12, S12; };
 DirTol dir_tol(const ref::rhumb::Dir& D, const EllRec& e, double lon1, bool unroll, double lat1 = 90) {
-  DirTol t; double g = ecc_factor(e) + de_factor(e, lat1, (double)D.lat2) / 16;
+  DirTol t; double g = ecc_factor(e) + de_factor(e, lat1, (double)D.lat2) / 4;
   // a start latitude so small that differences of tangents are subnormal (divided differences lose their relative accuracy)
-  if (lat1 != 0 && std::fabs(lat1) < 1e-290) g += DBL_TRUE_MIN / (std::fabs(lat1) * (M_PI / 180)) / EPS;
+  // (the difference of two tangents ~ eps tan(phi) is then below DBL_MIN: relative error TRUE_MIN / (eps tan(phi)))
+  if (lat1 != 0 && std::fabs(lat1) < 1e-290) g += DBL_TRUE_MIN / (std::fabs(lat1) * (M_PI / 180) * EPS) / EPS;
   t.mu2 = 8 * g * EPS * (fabsl(D.mu1) + fabsl(D.mu12) + 1e-300L);
   t.lat2 = t.mu2 * D.dphi_dmu2 + 16 * g * EPS * fabsl(D.lat2) + 1e-320L;
   L lon2abs = unroll ? fabsl((L)lon1 + D.lon12) : (L)180;
@@ -743,7 +773,9 @@ vf::Reg rc1({"C09.c", "Direct(Inverse(p1,p2)) = p2; intermediate points of the l
              [] { return rc::gen::exec([] { return gen_pair(); }); }, check_c, nullptr});
 vf::Reg rc2({"C09.c2", "Inverse(Direct(p1, azi, s)) = (|s|, azi or azi+180) when the course spans < 180 degrees of longitude; non-trivial: s12 != 0", 0.08,
              [] { return rc::gen::exec([] { J r = gen_dir(); double a = r.getd("a");
-                 r["s12"] = J::num(vf::g::sgn() * (vf::g::coin() ? vf::g::uni(0, 1.2 * a) : vf::g::loguni(1e-9, 1e7) * a / gg::A_WGS84)); return r; }); }, check_c2, nullptr});
+                 r["s12"] = J::num(vf::g::sgn() * (vf::g::coin() ? vf::g::uni(0, 1.2 * a) : vf::g::loguni(1e-9, 1e7) * a / gg::A_WGS84));
+                 if (vf::g::coin(2, 3)) r["lat1"] = J::num(vf::g::uni(-80, 80));      // keeps most courses away from the poles (< 180 deg of longitude)
+                 return r; }); }, check_c2, nullptr});
 vf::Reg rd({"C09.d", "shortest course: longitude extent <= 180, not longer than the course the other way round; exact ties lon2-lon1 = +-180 (mod 360): east-going when the difference as given is positive, magnitudes only otherwise", 0.12,
             [] { return rc::gen::exec([] { return gen_d(); }); }, check_d, nullptr});
 vf::Reg re({"C09.e", "courses passing a pole (reflected latitude, NaN lon2 and S12), aimed at a pole +- 1e-16..1e-2 of the distance, starting at a pole, Inverse with one or two pole end points (finiteness + relaxed oracle)", 0.10,
